@@ -32,8 +32,8 @@ RULE = (
     "the interior critical point; point-polygon = height if the foot is in the polygon else nearest edge; "
     "segment-polygon = 0 if they meet else min of end-point and edge distances). |d - sqrt(d2_exact)| <= "
     "1e-9*scale + 1e-12; each returned closest point (converted exactly) is within 1e-9*scale of its object and the "
-    "points realise d. Non-trivial = at least one pair of objects at positive distance and one degenerate relation "
-    "or a polygon; distinct = hash of spec."
+    "points realise d. Non-trivial = two objects at positive distance (pointset: >= 2 points) or a polygon with more "
+    "than 3 vertices; distinct = hash of spec."
 )
 BUDGET = {"quick": {"cases": 9000, "seconds": 35}, "thorough": {"cases": 400000, "seconds": 1100}}
 TECHNIQUE = "property-based testing (Hypothesis), differential against exact rational arithmetic (fractions.Fraction)"
@@ -102,9 +102,11 @@ def _known_edge_line(s) -> bool:
 
 
 def _known_coplanar_cp(s) -> bool:
-    """segments_polygon, segment in the plane of the polygon whose *start* is not in the closed
-    polygon (strictly outside) while its end is strictly inside: distance 0 is right but the start
-    point is returned as the common point."""
+    """segments_polygon, segment in the plane of the polygon whose *start* is strictly outside the
+    polygon while its end is in the closed polygon: distance 0 is right but the start point is
+    returned as the common point.  (End exactly on the boundary: in a coordinate plane the
+    implementation classifies it as outside and takes the correct edge branch; in a tilted plane
+    rounding decides, so the boundary case belongs to the class.)"""
     if s["fn"] != "segments_polygon":
         return False
     poly = _poly(s)
@@ -112,7 +114,7 @@ def _known_coplanar_cp(s) -> bool:
     for a, b in s["segs"]:
         a, b = eg.pt(_real(a, s)), eg.pt(_real(b, s))
         if eg.dot(eg.sub(a, poly[0]), nrm) == 0 and eg.dot(eg.sub(b, poly[0]), nrm) == 0:
-            if eg.point_in_polygon_3d(a, poly) != 1 and eg.point_in_polygon_3d(b, poly) == 1:
+            if eg.point_in_polygon_3d(a, poly) == -1 and eg.point_in_polygon_3d(b, poly) >= 0:
                 return True
     return False
 
@@ -128,7 +130,7 @@ KNOWN = {
 def _segments(D, dim, R, k):
     """k non-degenerate segments: a reference segment and k-1 placed relative to it."""
     a = D.vec(dim, R)
-    b = lt.add(a, D.vec(dim, R, True))
+    b = lt.add(a, D.vec(dim, 2, True), D.int(1, 3))  # often a non-primitive direction: lattice points inside
     segs = [[a, b]]
     for _ in range(k - 1):
         cls = D.choice(lt.REL_CLASSES)
